@@ -23,6 +23,7 @@ inductive Refusal where
   | copySelf          -- cbuf_copy (b, b, 2, &nd)
   | moveSelf          -- cbuf_move (b, b, -1, &nd)
   | copySelfAll       -- cbuf_copy (b, b, -1, &nd)
+  | wlineNullSrc      -- cbuf_write_line (dst, NULL, &nd)
   deriving DecidableEq, Repr
 
 def Refusal.ofNat? : Nat → Option Refusal
@@ -32,6 +33,7 @@ def Refusal.ofNat? : Nat → Option Refusal
   | 3 => some .copySelf
   | 4 => some .moveSelf
   | 5 => some .copySelfAll
+  | 6 => some .wlineNullSrc
   | _ => none
 
 /-- answer of a refused call: -1, and the out-parameter SET to 0 -/
